@@ -126,7 +126,8 @@ REPLAY_MF = '''
 from chempy import Substance, mass_fractions
 coeffs = %(coeffs)s
 masses = %(masses)s
-subs = {k: Substance(k, composition={1: 1}, data={"mass": masses[k]}) for k in coeffs}
+from collections import OrderedDict
+subs = OrderedDict((k, Substance(k, composition={1: 1}, data={"mass": masses[k]})) for k in reversed(list(coeffs)))
 got = mass_fractions(dict(coeffs), substances=subs)
 tot = sum(coeffs[k] * masses[k] for k in coeffs)
 bad = []
@@ -151,7 +152,9 @@ def task_fractions(nsub):
     assum = [v.t > 0 for v in coeffs.values()] + [v.t > 0 for v in masses.values()]
 
     def run():
-        subs = {k: Substance(k, composition={1: 1}, data={"mass": masses[k]}) for k in keys}
+        from collections import OrderedDict
+        # the substances mapping is given in the reverse order of the stoichiometry (e.g. a ReactionSystem.substances dict)
+        subs = OrderedDict((k, Substance(k, composition={1: 1}, data={"mass": masses[k]})) for k in reversed(keys))
         r1 = mass_fractions(dict(coeffs), substances=subs)
         # formula-defined substances (real parser + real table), symbolic coefficients
         f = {"H2O": coeffs[keys[0]], "Fe+3": coeffs[keys[1]]}
